@@ -440,7 +440,16 @@ KW_NAMES = ["foo", "", "from_parser", "brackets", "is_tstring", "a-b", "x1", "\u
 WEIRD_KWS = ["a.b", "a b", "(", ":"]
 TEXTS = ["", "a", "abc", "x y", "]", "]]", "]x]", "a]q]b", "{w}", ">{w}", "\"", "\\", "\n", "\nx", "\u00e9", "\u4e2d\U0001F991",
          "\x00", "'", "q", "==", "a]=]", "tab\there"]
-BRACKETS = [None, None, None, "", "x", "q", "==", "f", "zz"]
+# fragments of the code's own literals and of bracket-string syntax, to assemble adversarial strings from
+FRAGMENTS = ["]None]", "None", "]", "[[", "]]", "#[", "[", "]=]", "]f]", "]x]", "True", "False", "]]None]]", "brackets", "{", "}",
+             "\\", "]None", "None]", "#[[", "]q]", "is_tstring", "from_parser", "hy.models.String", "\"", "'", ":", "~", "`"]
+
+
+def adversarial_string(rng):
+    return "".join(rng.choice(FRAGMENTS) for _ in range(rng.choice([1, 1, 2, 3, 4])))
+
+
+BRACKETS = [None, None, None, "", "x", "q", "==", "f", "zz", "None"]
 CONVS = [None, None, "r", "s", "a", "z"]
 FLOAT_BITS = [0, 1 << 63, 0x3ff0000000000000, 0xbff8000000000000, 0x7ff0000000000000, 0xfff0000000000000,
               0x7ff8000000000000, 0xfff8000000000000, 0x7ff8000000000123, 0x7ff0000000000001, 0xfff4000000000000,
@@ -522,7 +531,9 @@ class Gen:
 
     def string(self):
         M, rng = self.M, self.rng
-        s = rng.choice(TEXTS) if rng.random() < 0.7 else "".join(rng.choice(TEXTS) for _ in range(rng.randrange(2, 4)))
+        r = rng.random()
+        s = (rng.choice(TEXTS) if r < 0.55 else adversarial_string(rng) if r < 0.8
+             else "".join(rng.choice(TEXTS) for _ in range(rng.randrange(2, 4))))
         return M.String(s, brackets=ok_brackets(rng, [s]))
 
     def bytes_(self):
